@@ -60,7 +60,7 @@ def histories_for(pid, tier):
             for n in range(2, nmax + 1):
                 for mid in mids:
                     out.append(('key', ins(n) + [mid, f]))
-                    if deep or n <= 2:
+                    if (deep and n <= 3) or n <= 2:
                         out.append(('key', ins(n) + [mid, 'insert', f]))
 
     def ms_hist(kinds, finals, mids=('delete',)):
@@ -71,7 +71,7 @@ def histories_for(pid, tier):
                 for n in range(2, nmax + 1):
                     for mid in mids:
                         out.append((k, ins(n) + [mid, f]))
-                        if deep or n <= 2:
+                        if (deep and n <= 3) or n <= 2:
                             out.append((k, ins(n) + [mid, 'insert', f]))
     if pid == 'C01':
         key_hist(KEY_Q + ['is_empty'])
